@@ -300,10 +300,17 @@ def force(v, depth=0):
         return [force(x, depth + 1) for x in v]
     if isinstance(v, list):
         return [force(x, depth + 1) for x in v]
-    if isinstance(v, tuple):
+    if isinstance(v, tuple) and not hasattr(v, "_fields"):
         return tuple(force(x, depth + 1) for x in v)
     if isinstance(v, dict):
         return {k: force(x, depth + 1) for k, x in v.items()}
+    # dataclass / NamedTuple instances are records with named fields: by design the library lowers
+    # their construction to dictionaries keyed by the field names
+    import dataclasses
+    if dataclasses.is_dataclass(v) and not isinstance(v, type):
+        return {f.name: force(getattr(v, f.name), depth + 1) for f in dataclasses.fields(v)}
+    if isinstance(v, tuple) and hasattr(v, "_fields"):
+        return {k: force(getattr(v, k), depth + 1) for k in v._fields}
     if isinstance(v, Result):
         return ("Result", v.kind, force(v.seq, depth + 1), force(v.args, depth + 1))
     if isinstance(v, Closure):
